@@ -116,6 +116,12 @@ Theorem C11_new_pes_header_total : forall b,
 Proof. exact new_pes_header_total. Qed.
 Print Assumptions C11_new_pes_header_total.
 
+(* bounded memory: whatever the input, Data() of the decoded header is empty or a suffix of the input *)
+Theorem C11_new_pes_header_data_suffix : forall b h, Pes.new_pes_header b = Ok h ->
+  Pes.data h = [] \/ exists k, k < len b /\ Pes.data h = dropN k b.
+Proof. exact new_pes_header_data_suffix. Qed.
+Print Assumptions C11_new_pes_header_data_suffix.
+
 Theorem C11_pkt_pes_header_no_panic : forall pkt, length pkt = 188%nat ->
   Pes.pkt_pes_header pkt <> Panic /\ Pes.pkt_pes_header pkt <> Diverge.
 Proof. exact pkt_pes_header_no_panic. Qed.
